@@ -40,6 +40,12 @@ GROUPS = [
     ["{}"],
     ["{1: 2, 3: 4}", "{3: 4, 1.0: 2}", "{3.0: 4, 1: 2}"],
     ["{(2^64): 1}", "{(2.0^64): 1}"],
+    # NaN is equal to itself wherever it sits inside a key: as a value or a key of a dictionary used as
+    # a key, nested in a list inside such a value, in a vector
+    ["{1: (0.0/0.0)}", "{1.0: (0.0/0.0)}"],
+    ['{"a": [(0.0/0.0)]}'],
+    ["{(0.0/0.0): 1}", "{(0.0/0.0): 1.0}"],
+    ["V((0.0/0.0), 1)", "V((0.0/0.0), 1.0)"],
 ]
 ALL_KEYS = [k for g in GROUPS for k in g]
 GROUP_OF = {k: gi for gi, g in enumerate(GROUPS) for k in g}
